@@ -921,3 +921,148 @@ pub fn dictionary_inputs(words: &[String]) -> Vec<Vec<u8>> {
     }
     out.into_iter().collect()
 }
+
+/// Valid UTF-8 text with multi-byte characters (DESIGN §0.5, space E4.utf8).  The byte-class
+/// alphabets model "non-ASCII" by lone bytes such as 0x80 / 0xFF; those strings are not valid
+/// UTF-8 and never reach the `&str` entry points (`FromStr`, `str::parse`, serde's `visit_str`,
+/// `PartialEq<&str>`).  This space closes that gap:
+///  (a) every string of 1..=`depth` characters over an 11-character alphabet (ASCII letter,
+///      upper-case letter, digit, both separators, 2-, 3- and 4-byte characters, and the three
+///      characters whose Unicode case mapping lands in ASCII: U+0130, U+212A, U+017F);
+///  (b) for a set of base identifiers up to 96 bytes long: a multi-byte character of each width
+///      replacing / inserted at every byte offset (so that a character straddles every offset,
+///      e.g. a fixed-size buffer or a `&s[..n]` boundary), and every prefix of those.
+pub fn utf8_strings(depth: u32) -> Vec<Vec<u8>> {
+    const A: [&str; 11] = ["a", "Z", "1", "-", "_", "\u{e9}", "\u{20ac}", "\u{1f600}", "\u{130}", "\u{212a}", "\u{17f}"];
+    let mut out: Vec<Vec<u8>> = vec![];
+    let mut level: Vec<String> = vec![String::new()];
+    for _ in 0..depth {
+        let mut next = Vec::with_capacity(level.len() * A.len());
+        for s in &level {
+            for c in A {
+                let mut t = s.clone();
+                t.push_str(c);
+                next.push(t);
+            }
+        }
+        out.extend(next.iter().map(|s| s.clone().into_bytes()));
+        level = next;
+    }
+    let bases = [
+        "en",
+        "en-US",
+        "en-Latn-US-valencia",
+        "sl-Latn-IT-1606nict-1694acad-1901-1959acad-1994-1996-fonipa-fonupa-nedis-rozaj-biske-njiva-osojs-solba",
+        "en-Latn-GB-fonipa-oxendict-scouse-u-attr1-attr2-ca-buddhist-nu-thai-t-de-Latn-DE-h0-hybrid-x-priv1-priv2",
+        "aaaaaaaaaaaaaaaaaaaaaaaaaaaaaaaaaaaaaaaaaaaaaaaaaaaaaaaaaaaaaaaaaaaaaaaaaaaaaaaaaaaaaaaaaaaaaaaaaaaa",
+        "Deutsch (Schweiz) - Schweizer Hochdeutsch, traditionelle Rechtschreibung und mehr als genug Text",
+    ];
+    let chars = ["\u{e9}", "\u{20ac}", "\u{1f600}", "\u{130}"];
+    let mut set = std::collections::BTreeSet::new();
+    for b in bases {
+        let bb = b.as_bytes();
+        for i in 0..=bb.len() {
+            for c in chars {
+                // insertion at offset i
+                let mut v = bb[..i].to_vec();
+                v.extend_from_slice(c.as_bytes());
+                v.extend_from_slice(&bb[i..]);
+                set.insert(v.clone());
+                // replacement of as many bytes as the character is wide
+                if i + c.len() <= bb.len() {
+                    let mut r = bb[..i].to_vec();
+                    r.extend_from_slice(c.as_bytes());
+                    r.extend_from_slice(&bb[i + c.len()..]);
+                    set.insert(r);
+                }
+                // the prefix that ends right after the character (every total length occurs)
+                let mut p = bb[..i].to_vec();
+                p.extend_from_slice(c.as_bytes());
+                set.insert(p);
+            }
+        }
+    }
+    out.extend(set);
+    debug_assert!(out.iter().all(|b| std::str::from_utf8(b).is_ok()));
+    out
+}
+
+/// Order hazards (space E4.order).  The library keeps variants, attributes and private tags
+/// sorted by the byte-lexicographic order of `TinyStr8`; the same subtags also have an integer
+/// form (little-endian u64) that is used as a sort key elsewhere (the likely-subtags tables, the
+/// macros' raw parts).  The two orders -- and other plausible ones (length first, reversed,
+/// big-endian) -- agree on the usual exemplars (`1996 < fonipa < valencia` in all of them), so a
+/// change that sorts by the wrong key is invisible there.  This alphabet is built so that every
+/// such order differs from the lexicographic one on some pair:
+///   lexicographic       1zzz < 9aaa < aaaaaaaa < aaaaz < bbbbbb < zaaaa
+///   little-endian u64   9aaa < 1zzz < zaaaa < aaaaz < bbbbbb < aaaaaaaa
+///   length, then lex    1zzz < 9aaa < aaaaz < zaaaa < bbbbbb < aaaaaaaa
+/// plus real registered pairs on which the integer order differs (hepburn/heploc,
+/// arevela/fonipa, ekavsk/fonipa, 1606nict/1996).
+pub const ORDER_VARIANTS: [&str; 6] = ["zaaaa", "aaaaz", "bbbbbb", "1zzz", "9aaa", "aaaaaaaa"];
+pub const ORDER_REAL_PAIRS: [(&str, &str); 4] = [("hepburn", "heploc"), ("arevela", "fonipa"), ("ekavsk", "fonipa"), ("1606nict", "1996")];
+/// the same idea for 3..8-character attributes / types / private tags
+pub const ORDER_WORDS: [&str; 5] = ["zaa", "aaz", "bbbb", "9aa", "aaaaaaaa"];
+
+/// every ordered pair and triple of the hazard alphabet (and both orders of the real pairs)
+pub fn order_lists() -> Vec<Vec<&'static str>> {
+    let v = ORDER_VARIANTS;
+    let mut out: Vec<Vec<&'static str>> = vec![];
+    for a in v {
+        for b in v {
+            if a != b {
+                out.push(vec![a, b]);
+                for c in v {
+                    if c != a && c != b {
+                        out.push(vec![a, b, c]);
+                    }
+                }
+            }
+        }
+    }
+    for (a, b) in ORDER_REAL_PAIRS {
+        out.push(vec![a, b]);
+        out.push(vec![b, a]);
+    }
+    out
+}
+
+pub fn order_inputs() -> Vec<Vec<u8>> {
+    let mut set = std::collections::BTreeSet::new();
+    for l in order_lists() {
+        let j = l.join("-");
+        for f in [
+            format!("en-{}", j),
+            format!("und-Latn-US-{}", j),
+            format!("EN_{}", j.to_ascii_uppercase().replace('-', "_")),
+            format!("en-{}-u-ca-buddhist-x-a", j),
+            format!("en-t-de-{}", j),
+            format!("en-t-de-{}-h0-hybrid", j),
+            format!("en-{}-t-und-latn-{}", j, j),
+        ] {
+            set.insert(f.into_bytes());
+        }
+    }
+    // attributes, keyword/tfield values (order must be KEPT there), private tags
+    let w = ORDER_WORDS;
+    for a in w {
+        for b in w {
+            if a == b {
+                continue;
+            }
+            for c in w {
+                for f in [
+                    format!("en-u-{}-{}-{}", a, b, c),
+                    format!("en-u-{}-{}-ca-{}", a, b, c),
+                    format!("en-u-ca-{}-{}-{}", a, b, c),
+                    format!("en-t-h0-{}-{}-{}", a, b, c),
+                    format!("en-x-{}-{}-{}", a, b, c),
+                    format!("en-u-ca-{}-nu-{}-t-k1-{}-h0-{}", a, b, c, a),
+                ] {
+                    set.insert(f.into_bytes());
+                }
+            }
+        }
+    }
+    set.into_iter().collect()
+}
